@@ -1674,9 +1674,10 @@ class Ctx:
                 key = f"{self.cls}.{func.attr}"
                 if key in self.helpers:
                     return key, self.helpers[key], True
-                # a helper added to a base class and called through self in a subclass
+                # a helper added to a base class and called through self in a subclass (never when this class defines the
+                # method itself: a new definition elsewhere is then an override, not a helper of this call)
                 cands = [k for k in self.helpers if "." in k and k.rsplit(".", 1)[1] == func.attr]
-                if len(cands) == 1:
+                if len(cands) == 1 and key not in self.module_names and not any(k.rsplit(".", 1)[-1] == func.attr for k in self.module_names if k not in self.helpers):
                     return cands[0], self.helpers[cands[0]], True
             key = f"{base}.{func.attr}"
             if key in self.helpers and base not in ("self",):
@@ -2564,8 +2565,8 @@ def heal_module(rel: str, src: str, tree: ast.Module) -> Tuple[ast.Module, List[
     for k_, v_ in EXTRA_CONSTS.items():
         cur_consts.setdefault(k_, v_)
     ref_consts = {k: v for k, v in rc.items() if k not in cc}
-    mod_names_c = {k for k in cf if "." not in k}
-    mod_names_r = {k for k in rf if "." not in k}
+    mod_names_c = set(cf)
+    mod_names_r = set(rf)
     healed: List[str] = []
     for key in cf:
         if key not in rf:
